@@ -4,5 +4,5 @@ T=${1:-quick}
 cd "$(dirname "$0")/.."
 for id in $(python3 -c "import json; print(' '.join(c['property_id'] for c in json.load(open('MANIFEST.json'))['checks']))"); do
   s=$(date +%s); ./check $id --tier $T --no-evidence > /tmp/runall_${T}_$id.out 2>&1; rc=$?; e=$(date +%s)
-  echo "$id exit=$rc $((e-s))s $(tail -1 /tmp/runall_$id.out | cut -c1-160)"
+  echo "$id exit=$rc $((e-s))s $(tail -1 /tmp/runall_${T}_$id.out | cut -c1-160)"
 done
